@@ -16,7 +16,8 @@ TRUSTED = ["Coq 8.16.1 kernel + vm_compute + primitive floats",
 RULE = ("outcome sequences x label encodings (ints other than 0/1, strings, booleans, floats, three classes, 0-d / 1-d arrays, lists, Series) x junk in "
         "the documented-unused arguments (X for concept-drift detectors; y_true / y_pred for change and data-drift detectors, including wrong shapes): "
         "each variant run must reproduce the canonical 0/1 run (direct oracle) and the model run on the agreement bits (correspondence). "
-        "Non-trivial: the canonical trace contains a warning or drift; distinct by content.")
+        "Non-trivial: the canonical trace contains a warning or drift; distinct by content."
+        " Also: the two labels in different containers (scalar vs list, list vs tuple, list vs nested list, array vs list); junk labels in set_reference of the batch detectors; LinearFourRates in regimes where decisions depend on the rates.")
 SHARD = 40
 
 ENC_NAMES = ["int01", "ints_5_9", "strings", "bools", "floats", "three_classes", "np0d", "np1d", "list1", "series1", "mixed_pairs",
